@@ -172,6 +172,9 @@ def methodStr : Option Str → Str
   | none => "None".toList
   | some m => m
 
+/-- `f"Pandas {method}"` -/
+def pandasOp (method : Option Str) : Str := "Pandas ".toList ++ methodStr method
+
 /-! ## ColumnMetadata / ColumnFormat -/
 
 /-- `ColumnFormat.copy()`: a new object with the same specifier -/
@@ -352,7 +355,7 @@ def combine (h : Heap) (method : Option Str) (objInfo : Option Ref) (o : Other) 
   match originsOf h data with
   | .error e => .error e
   | .ok parents =>
-  let origin := Origin.node none parents (some ("Pandas ".toList ++ methodStr method))
+  let origin := Origin.node none parents (some (pandasOp method))
   match nonStrict h objInfo with
   | .error e => .error e
   | .ok ns1 =>
